@@ -23,6 +23,41 @@ CLAIMED = {
         note="Reception-path clauses (damaged frame not delivered, reconnect afterwards) are covered by the frame and socket models."),
 }
 
+SOCK_NOTE = ("Socket layer: the real AirTouchSocket runs on a virtual-clock asyncio loop over an in-memory transport (modelled on "
+             "asyncio's selector transport); asyncio task scheduling is covered by quantifying the theorems over every label "
+             "sequence (every schedule and every environment answer), of which asyncio's schedules are a subset. ")
+
+CLAIMED["C16"] = dict(
+    text="Theorems in Props/C16.lean over the Lean coroutine model of AirTouchSocket (Model/Sock.lean), for every reachable state under "
+         "every schedule: entries never re-queued by the retry path never exceed the capacity regenerated from the source "
+         "(C16_fresh_bound), hence <= 10 whenever nothing was re-queued (C16_bound, the property's quantifier); overflow is explicit "
+         "and leaves the held entries untouched (C16_overflow_explicit); not-open holds nothing (C16_not_open); expired entries are "
+         "purged before the capacity test (C16_accept_when_room, C16_purged_are_expired_only). The model is tied to the code by "
+         "replaying every atomic block of recorded runs of the real socket against Sock.step (events, private-state snapshot, "
+         "termination), and the recorded accept/overflow/not-open decisions and frames are judged by the Spec bounded-FIFO monitor.",
+    design_ref="DESIGN.md section 7, C16",
+    technique="Lean 4 proof (invariant by induction over all schedules of a coroutine model) + block-by-block trace validation of the model against the real socket + Spec monitor on recorded runs",
+    note=SOCK_NOTE)
+CLAIMED["C02"] = dict(
+    text="Theorems in Props/C02.lean for every label sequence with distinct send ids: every write attempt (wire, dead write, write "
+         "fault) of a message happens strictly before its expiry (C02_never_at_or_after_expiry) and a message is attempted at most "
+         "1 + its policy's retries times (C02_attempts_bounded) - stated with the very Spec monitors that judge recordings of the "
+         "real socket. Boundary scripts put a connection one tick before / at / after expiry and a write fault on the n-th write; "
+         "the model is tied to the code by block-by-block trace validation. The policy chosen per API command is checked at the API layer.",
+    design_ref="DESIGN.md section 7, C02",
+    technique="Lean 4 proof (trace invariants over all schedules) + trace validation + Spec monitors on recorded runs incl. expiry-boundary scripts",
+    note=SOCK_NOTE)
+CLAIMED["C01"] = dict(
+    text="Theorems in Props/C01.lean (and C02/C16) for every label sequence with distinct send ids: nothing reaches the wire that was "
+         "not accepted (C01_wire_only_submitted, no unknown or torn frame), at most 1 + retries attempts, never after expiry. Recorded "
+         "runs of the real socket (outage, steady incl. > 256 sends, fault families; AT4 and AT5 registries) are judged by the Spec "
+         "monitors wireOnlySubmitted / onceInOrderWithoutFault / deliveredWhenPossible and every block is replayed against the model. "
+         "The order / exactly-once clauses are proved in Props/C01Order.lean when present; until then they are decided by the monitor "
+         "on recorded runs only (partial).",
+    design_ref="DESIGN.md section 7, C01",
+    technique="Lean 4 proof (trace invariants over all schedules) + trace validation + Spec monitors on recorded runs",
+    note=SOCK_NOTE)
+
 NOT_YET = {
 }
 
